@@ -1,5 +1,6 @@
 import BfeVerif.Common.Proto
 import BfeVerif.C32.Model
+import BfeVerif.C32.Chunked
 /-!
   C32 driver.
   ops:
@@ -192,6 +193,66 @@ def run (op impl : String) : Ans :=
               (if okWs.any (·.isSome) && entries.any (fun e => !e.startsWith "E:") then ["nt"] else []) ++
               ((istat.splitOn ",").filter (· != "ok")).eraseDups }
       | _ => { model := model, verdict := "FAIL:unparsable" }
+    | _, _, _ => { model := "bad-op", verdict := "skip" }
+  | ["rs", mx, cuts, hx] =>
+    -- the same byte stream through a SEGMENTED reader: cuts = sizes (cycled), suffix `e` = last data with io.EOF
+    let ewd := cuts.endsWith "e"
+    let cs := if ewd then (cuts.dropEnd 1).toString else cuts
+    match mx.toNat?, unhex hx, (cs.splitOn ",").mapM (·.toNat?) with
+    | some max, some buf, some sizes =>
+      let fr := newFramer max
+      let chunks := cutInto ((buf.length + 1) * (sizes.length + 2)) sizes sizes buf
+      let rd : Rd := ⟨chunks, ewd⟩
+      let entries := impl.splitOn "|"
+      let spec := specAll (buf.length + 1) 0 fr.maxReadSize buf
+      let v := match judgeClasses entries spec 0 [] with | none => "ok" | some c => "FAIL:" ++ c
+      { model := "|".intercalate ((readAllR (buf.length + 1) fr rd).map resStr), verdict := v,
+        tags := (entries.map kindTag).eraseDups ++ ["rs"] ++ (if ewd then ["eof-with-data"] else []) ++
+          (if sizes.contains 0 then ["empty-read"] else []) ++ (if sizes == [1] then ["bytewise"] else []) ++
+          (if entries.length ≥ 2 then ["nt"] else []) }
+    | _, _, _ => { model := "bad-op", verdict := "skip" }
+  | ["rc", mx, hx] =>
+    -- ReadFrame called again after EVERY error (until an i/o error)
+    match mx.toNat?, unhex hx with
+    | some max, some buf =>
+      let entries := impl.splitOn "|"
+      { model := "|".intercalate ((readAllCont (buf.length + 2) (newFramer max) buf).map resStr),
+        verdict := if impl.startsWith "PANIC" || impl == "HANG" then "FAIL:panic-after-error" else "ok",
+        tags := (entries.map kindTag).eraseDups ++ ["rc"] ++ (if entries.length ≥ 3 then ["nt"] else []) }
+    | _, _ => { model := "bad-op", verdict := "skip" }
+  | ["wf", mx, al, modes, wl] =>
+    -- writers on a sink that fails: per call g = good, s = short write (n-1, nil), z = (0, nil), e = error
+    match mx.toNat?, pBool al, (wl.splitOn ";").mapM parseW with
+    | some max, some allow, some ws =>
+      let ms := modes.toList
+      if ms.length != ws.length then { model := "bad-op", verdict := "skip" } else
+      let outs := (ws.zip ms).map fun (w, m) =>
+        match runW allow w with
+        | .error e => (werrStr e, ([] : Bytes))
+        | .ok b => if m == 'g' then ("ok", b) else if m == 'e' then ("werr:io", []) else ("werr:short", [])
+      let buf := outs.foldl (fun acc o => acc ++ o.2) []
+      let stat := ",".intercalate (outs.map (·.1))
+      { model := stat ++ " " ++ hexB buf ++ " " ++ readsStr max buf,
+        verdict := if impl.startsWith "PANIC" then "FAIL:panic" else "ok",
+        tags := ["wf"] ++ (outs.map (·.1)).eraseDups ++ (if outs.any (·.1 == "ok") then ["nt"] else []) }
+    | _, _, _ => { model := "bad-op", verdict := "skip" }
+  | ["wb", al, kind, ns, pls] =>
+    -- payload sizes around 2^24 (ErrFrameTooLarge of endWrite); result: status, bytes written, the 9 header bytes
+    match pBool al, ns.toNat?, pls.toNat? with
+    | some _, some n, some pl =>
+      if !(["D", "H", "U", "C", "G", "X", "S"].contains kind) || pl > 255 then { model := "bad-op", verdict := "skip" } else
+      let len := sizedLen kind n pl
+      let typ := if kind == "D" then 0 else if kind == "H" then 1 else if kind == "U" then 5 else if kind == "C" then 9
+        else if kind == "G" then 7 else if kind == "X" then 10 else 4
+      let flags := (if (kind == "D" || kind == "H" || kind == "U") && pl != 0 then 8 else 0) +
+        (if kind == "H" || kind == "U" || kind == "C" then 4 else 0)
+      let sid := if kind == "G" || kind == "S" then 0 else 1
+      let model :=
+        if len ≥ 16777216 then "werr:big 0 -"
+        else "ok " ++ toString (9 + len) ++ " " ++ hexB ([len / 65536 % 256, len / 256 % 256, len % 256, typ, flags] ++ put32 sid)
+      { model := model,
+        verdict := if (len ≥ 16777216) == (impl.startsWith "werr:big") then "ok" else "FAIL:frame-too-large-boundary",
+        tags := ["wb", kind] ++ (if len == 16777215 || len == 16777216 then ["nt", "at-limit"] else []) }
     | _, _, _ => { model := "bad-op", verdict := "skip" }
   | _ => { model := "bad-op", verdict := "skip" }
 
